@@ -223,7 +223,23 @@ int main(int argc, char **argv) {
             CronProbe p(loop);
             if (!p.initialize(w[1] + " " + w[2] + " " + w[3] + " " + w[4] + " " + w[5] + " " + w[6])) { std::cout << "P init=0\n"; return true; }
             uint32_t r = 0; bool ok = p.calc((uint32_t)t, r);
-            std::cout << show_next(ok && r != 4294967295U, r) << "\n";     // (time_t)-1 = ccronexpr found nothing
+            std::cout << show_next(ok, r) << "\n";     // false = no next instant (ccronexpr gave up): the alarm cannot be armed
+        } else if (op == "cronen" && w.size() == 8 && cron_field(w[1]) && cron_field(w[2]) && cron_field(w[3]) && cron_field(w[4]) &&
+                   cron_field(w[5]) && cron_field(w[6]) && bounded(w[7], 4294967295ULL, t)) {
+            // the enable() path of a real CronAlarm at wall time t (zone 0): false when there is no next instant
+            int64_t saved = vt::wall_ms();
+            vt::set_wall_ms((int64_t)t * 1000);
+            {
+                CronProbe p(loop);
+                p.setTimezone(0);
+                if (!p.initialize(w[1] + " " + w[2] + " " + w[3] + " " + w[4] + " " + w[5] + " " + w[6])) std::cout << "P init=0\n";
+                else {
+                    bool ok = p.enable();
+                    std::cout << "P en=" << (ok ? 1 : 0) << " enabled=" << (p.isEnabled() ? 1 : 0) << " rem=" << p.remainSeconds() << "\n";
+                    p.disable();
+                }
+            }
+            vt::set_wall_ms(saved);
         } else if (op == "new" && (w.size() == 3 || w.size() == 4) && slot_of(w[1], i) && (w[2] == "wk" || w[2] == "os" || w[2] == "wd") && !slots[i].a() &&
                    (w.size() == 3 || script_of(w[3], i, scripts[i]))) {
             if (w.size() == 3) scripts[i].clear();
